@@ -186,9 +186,9 @@ def gen_integral(repo, res):
 @rule(
     "GEN-EXPRESSION-DESC",
     ["C04", "C05", "C09", "C18", "C20"],
-    "the C and numba expression generators, interpreted for every scalar type on sample ExpressionIR records (two coefficients "
-    "of an original three, one constant, 3 points in 2D, value shape (2,3), one argument; and a scalar functional expression without "
-    "coefficients), emit a descriptor <name> whose only kernel slot is the one of the scalar type and points to a kernel defined in "
+    "the C and numba expression generators, interpreted for every scalar type on sample ExpressionIR records (three coefficients "
+    "of an original six, four constants, 5 points in 2D, value shape (6,), one argument; and a matrix-valued expression without "
+    "coefficients or arguments), emit a descriptor <name> whose only kernel slot is the one of the scalar type and points to a kernel defined in "
     "the same text with scalar/real parameter types; counts, positions, names, points (row-major, exact), value shape, rank, "
     "coordinate element hash carry the IR values in both backends; the alias is declared and points to the descriptor",
     min_instances=16,
@@ -196,13 +196,16 @@ def gen_integral(repo, res):
 def gen_expression_desc(repo, res):
     from ..npmodel import NDArr
 
-    c0, c1 = Node("Coefficient", name="f"), Node("Coefficient", name="g")
+    c0, c1, c2 = Node("Coefficient", name="f"), Node("Coefficient", name="g"), Node("Coefficient", name="h")
+    # like-typed descriptor fields take pairwise different values in at least one sample (3 coefficients, 4 constants, 5 points, dimension 2,
+    # one value axis, one argument; the second sample separates value rank 2 from tensor rank 0)
     samples = {
-        "two coefficients, one constant, 3 points in 2D, shape (2,3), one argument":
-            dict(name="expression_abc", alias="expression_p_flux", shape=(2, 3), tshape=[4], numbering={c0: 0, c1: 1}, positions=[0, 2], cnames=["f", "g"], knames=["kappa"],
-                 hash=777000777, points=NDArr([[0.25, 0.5], [0.1, 0.7], [1.0 / 3.0, 0.125]], (3, 2))),
-        "scalar, no coefficients or constants, one point in 3D, no argument":
-            dict(name="expression_q", alias="expression_p_0", shape=(), tshape=[], numbering={}, positions=[], cnames=[], knames=[], hash=5,
+        "three coefficients, four constants, 5 points in 2D, shape (6,), one argument":
+            dict(name="expression_abc", alias="expression_p_flux", shape=(6,), tshape=[4], numbering={c0: 0, c1: 1, c2: 2}, positions=[0, 2, 5], cnames=["f", "g", "h"],
+                 knames=["kappa", "mu", "c2", "c3"], hash=777000777,
+                 points=NDArr([[0.25, 0.5], [0.1, 0.7], [1.0 / 3.0, 0.125], [0.0, 1.0], [0.75, 0.0625]], (5, 2))),
+        "matrix-valued, no coefficients or constants, one point in 3D, no argument":
+            dict(name="expression_q", alias="expression_p_0", shape=(2, 2), tshape=[], numbering={}, positions=[], cnames=[], knames=[], hash=5,
                  points=NDArr([[0.5, 0.25, 0.125]], (1, 3))),
     }
     for be in ("C", "numba"):
